@@ -481,3 +481,26 @@ def weave(ann, pin, cur):
 
 def sha(s):
     return hashlib.sha256(s.encode()).hexdigest()
+
+
+def degrade(out_tokens, kind):
+    """Degraded form of a woven item whose body can no longer carry the overlay (restructured code): keep the contract
+    header(s) - ghost tokens outside function bodies - drop every ghost token inside a body, and mark each fn
+    `#[verifier::external_body]` so that its contract is ASSUMED, not proved (the properties it carries are then
+    decided by the witness search or stay undecided).  kind: 'fn' (bodies start at code-brace depth 0) or
+    'impl' / 'trait' (bodies start at depth 1)."""
+    base = 0 if kind == 'fn' else 1
+    res = []; depth = 0
+    for t in out_tokens:
+        if t.ghost:
+            if depth <= base: res.append(t)
+            continue
+        if t.t == '}': depth -= 1
+        if t.t == 'fn' and depth == base:
+            k = len(res)
+            while k > 0 and (not res[k - 1].ghost) and res[k - 1].t in ('pub', ')', 'crate', '(', 'super', 'in'): k -= 1
+            a = Tok('#[verifier::external_body]', '\n', t.line); a.ghost = True
+            res.insert(k, a)
+        res.append(t)
+        if t.t == '{': depth += 1
+    return res
